@@ -37,3 +37,35 @@ package header
 //@   modifies v.reserr.mu.rheld
 //@   ensures[nil-iff-nothing-recorded] (result == nil) == (len(v.reserr.errs) == 0)
 //@   ensures[reports-the-recorded-list] result != nil ==> result == v.reserr
+
+// ---------------------------------------------------------------------------------------------
+// C14: the members of the spec-compliance stack, at the level of the header map.
+// net/http's Header methods are assumed with canonicalisation as the uninterpreted function http.CanonicalHeaderKey.
+
+//@ axiom forall s string :: http.CanonicalHeaderKey(http.CanonicalHeaderKey(s)) == http.CanonicalHeaderKey(s)
+//@ axiom http.CanonicalHeaderKey("Connection") == "Connection" && http.CanonicalHeaderKey("Keep-Alive") == "Keep-Alive" && http.CanonicalHeaderKey("Proxy-Authenticate") == "Proxy-Authenticate" && http.CanonicalHeaderKey("Proxy-Authorization") == "Proxy-Authorization" && http.CanonicalHeaderKey("Proxy-Connection") == "Proxy-Connection" && http.CanonicalHeaderKey("Te") == "Te" && http.CanonicalHeaderKey("Trailer") == "Trailer" && http.CanonicalHeaderKey("Transfer-Encoding") == "Transfer-Encoding" && http.CanonicalHeaderKey("Upgrade") == "Upgrade"
+//@ axiom http.CanonicalHeaderKey("Via") == "Via" && http.CanonicalHeaderKey("Content-Length") == "Content-Length" && http.CanonicalHeaderKey("X-Forwarded-For") == "X-Forwarded-For" && http.CanonicalHeaderKey("X-Forwarded-Proto") == "X-Forwarded-Proto" && http.CanonicalHeaderKey("X-Forwarded-Host") == "X-Forwarded-Host" && http.CanonicalHeaderKey("X-Forwarded-Url") == "X-Forwarded-Url"
+
+//@ extern func (http.Header).Del
+//@   modifies self[*]
+//@   ensures !has(self, http.CanonicalHeaderKey(key))
+//@   ensures forall k string :: k != http.CanonicalHeaderKey(key) ==> has(self, k) == old(has(self, k)) && self[k] == old(self[k])
+//@ extern func (http.Header).Get
+//@   ensures result == ite(has(self, http.CanonicalHeaderKey(key)) && len(self[http.CanonicalHeaderKey(key)]) > 0, self[http.CanonicalHeaderKey(key)][0], "")
+//@ extern func (http.Header).Set
+//@   requires self != nil
+//@   modifies self[*]
+//@   ensures has(self, http.CanonicalHeaderKey(key)) && len(self[http.CanonicalHeaderKey(key)]) == 1 && self[http.CanonicalHeaderKey(key)][0] == value && fresh(arr(self[http.CanonicalHeaderKey(key)]))
+//@   ensures forall k string :: k != http.CanonicalHeaderKey(key) ==> has(self, k) == old(has(self, k)) && self[k] == old(self[k])
+
+// The fixed hop-by-hop list is established by the package initialiser and never assigned again.
+//@ pred hopList() = len(hopByHopHeaders) == 9 && hopByHopHeaders[0] == "Connection" && hopByHopHeaders[1] == "Keep-Alive" && hopByHopHeaders[2] == "Proxy-Authenticate" && hopByHopHeaders[3] == "Proxy-Authorization" && hopByHopHeaders[4] == "Proxy-Connection" && hopByHopHeaders[5] == "Te" && hopByHopHeaders[6] == "Trailer" && hopByHopHeaders[7] == "Transfer-Encoding" && hopByHopHeaders[8] == "Upgrade"
+//@ pred isHop(k string) = k == "Connection" || k == "Keep-Alive" || k == "Proxy-Authenticate" || k == "Proxy-Authorization" || k == "Proxy-Connection" || k == "Te" || k == "Trailer" || k == "Transfer-Encoding" || k == "Upgrade"
+
+//@ extern func martian.Noop
+//@   ensures result != nil
+//@ func init
+//@   serves C14
+//@   modifies hopByHopHeaders, whitespace, noop
+//@   noframe
+//@   ensures[fixed-hop-by-hop-list-is-the-rfc-list-plus-proxy-connection] hopList()
